@@ -94,7 +94,7 @@ def run_job(job, tree, trace=False):
            "reason": "", "solver": (job.solver or DEFAULT_SOLVER)[-1] if (job.solver or DEFAULT_SOLVER) else "minisat"}
     t_all = time.time()
     cc = ["goto-cc", "-I" + tree, "-I" + tree + "/include", "-I" + tree + "/src",
-          "-I" + tree + "/examples", "-std=c99", "--function", job.entry] + \
+          "-I" + tree + "/examples", "-std=c99", "-DVERIF_CBMC=1", "--function", job.entry] + \
         ["-D" + d for d in job.defs] + job.cflags + [os.path.join(tree, "harness", job.harness), "-o", a]
     rc, _ = sh(cc, tree, 300, log)
     if rc != 0:
@@ -233,7 +233,14 @@ def run_job(job, tree, trace=False):
         return out
     out["fails"] = fails
     out["status"] = "fail" if fails else "ok"
-    if fails and job.loops and job.enforce and all(inductive_only(r, tree) for r in fails):
+    inv_broken = [r for r in fails if re.search(r"\.loop_(invariant_base|invariant_step|decreases|assigns|step_unwinding)\.", r["name"])]
+    if fails and job.loops and job.enforce and inv_broken:
+        # A loop invariant / variant of this job is not inductive for the code as it is now.  Everything CBMC reports behind the
+        # havocked loop head - including memory-safety checks in the real loop body - is then evaluated in states the invariant no
+        # longer describes.  The invariant may be broken because the code is wrong or because the loop was restructured; the job
+        # is a VIOLATION only with a native failing input, otherwise UNDECIDED.
+        out["frame_mismatch"] = "loop invariant not inductive for this code: " + "; ".join("[%s]" % r["name"] for r in inv_broken[:4])
+    elif fails and job.loops and job.enforce and all(inductive_only(r, tree) for r in fails):
         # Every failed obligation of this loop-contract job lies on a path through a havocked loop head or in the proof's own
         # scaffolding (invariant, role precondition of a replaced callee, pointer re-normalisation, ghost-stated postcondition):
         # it can mean "the code is wrong" or "the loop was restructured and needs another invariant".  No memory-safety
